@@ -232,6 +232,13 @@ STORAGE_REPLAY_REWRITES = [
     (r"#\[cfg\(any\(test, feature = \"test-utils\", feature = \"test-suite\"\)\)\]", "#[cfg(any(feature = \"test-utils\", feature = \"test-suite\"))]", 1),
 ]
 
+CORE_REWRITES = [
+    # bulk requests carry their documents in a SmallVec<[T; 4]> (a union of an inline array and a heap pointer, moved by value
+    # into the boxed storage future): CBMC ran out of memory (40 GB) converting a ONE-document bulk delete; the container is
+    # environment like the std ones -> fixed-capacity Vec model (same API subset: new/push/len/into_iter)
+    (r"^pub\(crate\) type DocVec<T> = SmallVec<\[T; 4\]>;$", "pub(crate) type DocVec<T> = datacake_crdt::verif_api::Vec<T>;", 1),
+]
+
 STORAGE_REWRITES = [
     # BulkMutationError carries the ids the store wrote in a heap Vec; under symbolic failure schedules the merged heap
     # shapes do not finish in CBMC -> fixed-capacity IdVec (derefs to &[Key] like the original)
@@ -241,23 +248,34 @@ STORAGE_REWRITES = [
 ]
 
 
-def build_actor_mount(ws, mode, harness_files, keys, nodes, extra_actor_rewrites=()):
+def build_actor_mount(ws, mode, harness_files, keys, nodes, extra_actor_rewrites=(), vcap=None, subdir=""):
+    """subdir: a second instance of the whole mount (own copies of the shim crates, datacake-crdt and ecv under
+    <scratch>/<subdir>/) with a different Vec capacity."""
     import shutil
-    # Vec capacity = KEYS: bulk requests of at most KEYS documents, purge lists of at most KEYS tombstones (overflow is an assertion failure)
-    d_crdt, mounted, cfg = build_crdt_vcoll(ws, mode, ["harness_orswot_common.rs"], keys, nodes, vcap=keys, name="datacake-crdt", export_api=True)
+    # Vec capacity (default KEYS): bulk requests of at most VCAP documents, purge lists of at most VCAP tombstones (overflow is an assertion failure)
+    vcap = vcap or keys
+
+    def sp(name):
+        return ws.path(os.path.join(subdir, name)) if subdir else ws.path(name)
+
+    if subdir:
+        os.makedirs(ws.path(subdir), exist_ok=True)
+    d_crdt, mounted, cfg = build_crdt_vcoll(ws, mode, ["harness_orswot_common.rs"], keys, nodes, vcap=vcap,
+                                            name=(os.path.join(subdir, "datacake-crdt") if subdir else "datacake-crdt"), export_api=True)
     for shim in ("datacake-node", "datacake-rpc", "puppet", "puppet-derive"):
-        shutil.copytree(os.path.join(ENC, "shims", shim), ws.path(shim), dirs_exist_ok=True)
-    d = ws.path("ecv")
+        shutil.copytree(os.path.join(ENC, "shims", shim), sp(shim), dirs_exist_ok=True)
+    d = sp("ecv")
     os.makedirs(os.path.join(d, "src/keyspace"), exist_ok=True)
     dcv.write(os.path.join(d, "Cargo.toml"), ECV_CARGO)
     lockfile(d)
     dcv.write(os.path.join(d, "src/lib.rs"), ECV_LIB)
     dcv.write(os.path.join(d, "src/keyspace/mod.rs"), ECV_KEYSPACE_MOD)
     base = "datacake-eventual-consistency/src/"
-    mounted.append(dcv.mount(base + "core.rs", os.path.join(d, "src/core.rs")))
+    mounted.append(dcv.mount(base + "core.rs", os.path.join(d, "src/core.rs"), rewrites=(CORE_REWRITES if mode == "solve" else ())))
     mounted.append(dcv.mount(base + "storage.rs", os.path.join(d, "src/storage.rs"), rewrites=(STORAGE_REWRITES if mode == "solve" else STORAGE_REPLAY_REWRITES)))
     mounted.append(dcv.mount(base + "keyspace/messages.rs", os.path.join(d, "src/keyspace/messages.rs")))
     rules = list(ACTOR_REWRITES if mode == "solve" else ACTOR_REPLAY_REWRITES) + list(extra_actor_rewrites)
     mounted.append(dcv.mount(base + "keyspace/actor.rs", os.path.join(d, "src/keyspace/actor.rs"), rewrites=rules,
-                             append=[os.path.join(ENC, h) for h in harness_files], subst={"@@UNWIND@@": cfg["unwind"]}))
+                             append=[os.path.join(ENC, h) for h in harness_files],
+                             subst={"@@UNWIND@@": cfg["unwind"], "@@UNWIND_BULK@@": max(cfg["DOM"], cfg["VCAP"]) + 1}))
     return d, mounted, cfg
